@@ -243,9 +243,12 @@ func (x *Exec) copyOp(cfg *Config, args []Val, sig *types.Signature, pos token.P
 // maps (dom / val / card per map reference)
 // ---------------------------------------------------------------------------
 
+// map arrays are named by the sorts of key and value, not by their Go types:
+// a generic method body (map[K]V) and its instantiation (map[T]*Element[T])
+// must address the same arrays; maps are distinguished by their reference.
 func (x *Exec) mapNames(m *types.Map) (dom, val, card string) {
-	n := typeName(m)
-	return "mapdom!" + n, "mapval!" + n, "mapcard!" + n
+	ks, vs := string(x.sortOf(m.Key())), string(x.sortOf(m.Elem()))
+	return "mapdom!" + ks, "mapval!" + ks + "!" + vs, "mapcard!" + ks
 }
 
 func (x *Exec) mapLen(st *State, ref Term, m *types.Map) Term {
